@@ -668,10 +668,10 @@ def reach(tot, tier):
 
 
 UNITS = [
-    Unit("history", gen_hist, run_hist, quick=96, thorough=960, min_nontrivial=150),
+    Unit("history", gen_hist, run_hist, quick=96, thorough=480, min_nontrivial=150),
     Unit("shared", gen_shared, run_shared, quick=24, thorough=240, min_nontrivial=16),
-    Unit("reuse", gen_reuse, run_reuse, quick=60 * 4, thorough=60 * 40, min_nontrivial=120),
+    Unit("reuse", gen_reuse, run_reuse, quick=60 * 4, thorough=60 * 20, min_nontrivial=120),
     Unit("closure", gen_closure, run_closure, quick=4, thorough=24, min_nontrivial=3),
     Unit("nodes", gen_nodes, run_nodes, quick=48, thorough=480, min_nontrivial=40),
-    Unit("batch", gen_batch, run_batch, quick=len(BATCH) * 4, thorough=len(BATCH) * 40, min_nontrivial=200),
+    Unit("batch", gen_batch, run_batch, quick=len(BATCH) * 4, thorough=len(BATCH) * 20, min_nontrivial=200),
 ]
